@@ -74,6 +74,7 @@ type Op struct {
 	// storm (storm_test.go): the cleaning job runs Runs times with the clock at slot Off of Epoch
 	// while the worker goroutines perform their items
 	Runs    uint64    `json:"runs,omitempty"`
+	Step    uint64    `json:"step,omitempty"` // storm: the clock advances by one epoch every Step runs (0 = it stands)
 	Workers [][]SItem `json:"workers,omitempty"`
 }
 
@@ -579,6 +580,9 @@ func TestC18(t *testing.T) {
 			}
 			if op.Kind == "storm" {
 				col.Count("storm:" + stormFamily(h))
+				if op.Step > 0 {
+					col.Count("storm:the-clock-advances-between-the-runs")
+				}
 				for _, items := range op.Workers {
 					for _, it := range items {
 						col.Count("storm:item:" + stormItemFamily(it))
